@@ -83,8 +83,11 @@ def harness(E):
     ref = Ref()
     h = History(E, t, ref, pool, P["alphabet"], P)
     h.prelude(P.get("prelude"))
+    if P.get("prelude"):
+        observe_pages(E, t, ref, "pre")      # counts are asked before the next request too (count, write, count again)
     for i in range(P["n"]):
         kind, info = h.step(i)
+        t = h.t
         rep = info.get("report")
         if rep is not None:
             E.check(rep.nb_created_pages == info["new_pages"], "report:nb_created_pages",
